@@ -376,6 +376,63 @@ def translate(repo: Path) -> dict:
         c.args and isinstance(c.args[0], ast.Constant) and c.args[0].value == b"\n" for c in ast.walk(n.test))
         and any(sl in list(ast.walk(n)) for sl in slices)]
     mt_conditional = bool(guarded)
+    # ---- re-filling a live object: which attributes `_deserialize` resets / assigns, and under which header branch
+    def self_attrs(node):
+        out = []
+        for t in ast.walk(node):
+            if isinstance(t, ast.Attribute) and isinstance(t.value, ast.Name) and t.value.id == "self" and \
+                    isinstance(t.ctx, ast.Store):
+                out.append(t.attr)
+        return out
+    td = T.find_def(tree, "Tag._deserialize")
+    tag_resets, tag_branches = [], []
+    loop = None
+    for st in td.body:
+        if isinstance(st, ast.For):
+            loop = st
+            break
+        if isinstance(st, (ast.Assign, ast.AnnAssign)):
+            tag_resets += self_attrs(st)
+    if loop is None:
+        raise T.TranslateError("Tag._deserialize: header loop not found")
+
+    def walk_chain(ifnode):
+        t = ifnode.test
+        key = None
+        if isinstance(t, ast.Compare) and isinstance(t.left, ast.Name) and t.left.id == "field":
+            c = t.comparators[0]
+            key = c.id if isinstance(c, ast.Name) else ("None" if isinstance(c, ast.Constant) and c.value is None else None)
+        if key is None:
+            raise T.TranslateError("Tag._deserialize: unexpected branch test in the header loop")
+        attrs = []
+        for b in ifnode.body:
+            attrs += self_attrs(b)
+        tag_branches.append((key, sorted(set(attrs))))
+        if len(ifnode.orelse) == 1 and isinstance(ifnode.orelse[0], ast.If):
+            walk_chain(ifnode.orelse[0])
+        else:
+            for b in ifnode.orelse:
+                if self_attrs(b):
+                    raise T.TranslateError("Tag._deserialize: attribute assigned in the final else branch")
+    chains = [b for b in loop.body if isinstance(b, ast.If)]
+    if len(chains) != 1 or any(self_attrs(b) for b in loop.body if not isinstance(b, ast.If)):
+        raise T.TranslateError("Tag._deserialize: loop body is not one if/elif chain")
+    walk_chain(chains[0])
+    cd = T.find_def(tree, "Commit._deserialize")
+    commit_uncond = []
+    for st in cd.body:
+        if isinstance(st, (ast.Assign, ast.AnnAssign)):
+            commit_uncond += self_attrs(st)
+        elif self_attrs(st):
+            raise T.TranslateError("Commit._deserialize: an attribute is assigned under a condition/loop "
+                                   "(the model's parse is a function of the new bytes only)")
+    ccls = T.find_def(tree, "Commit")
+    commit_slots = None
+    for st in ccls.body:
+        if isinstance(st, ast.Assign) and isinstance(st.targets[0], ast.Name) and st.targets[0].id == "__slots__":
+            commit_slots = list(T.eval_literal(st.value))
+    if not commit_slots:
+        raise T.TranslateError("Commit.__slots__ not found")
     max_time = T.const_value(tree, "MAX_TIME")
     pgp, ssh = T.const_value(tree, "BEGIN_PGP_SIGNATURE"), T.const_value(tree, "BEGIN_SSH_SIGNATURE")
 
@@ -434,6 +491,15 @@ def translate(repo: Path) -> dict:
     L.append(f"def maxTime : Nat := {max_time}")
     L.append("/-- `Commit._serialize` cuts the last byte of a mergetag text only when it is LF (`true`), or always (`false`) -/")
     L.append(f"def mergetagStripConditional : Bool := {'true' if mt_conditional else 'false'}")
+    L.append("/-- `Tag._deserialize`: attributes assigned before the header loop (reset on every re-fill) -/")
+    L.append("def tagResets : List String := [" + ", ".join(_s(a) for a in tag_resets) + "]")
+    L.append("/-- `Tag._deserialize`: for each `field == <header>` branch of the loop, the attributes it assigns -/")
+    L.append("def tagBranchAssigns : List (String × List String) := [" +
+             ", ".join(f"({_s(k)}, [" + ", ".join(_s(a) for a in v) + "])" for k, v in tag_branches) + "]")
+    L.append("/-- `Commit._deserialize`: attributes assigned unconditionally (top-level statements) -/")
+    L.append("def commitDeserAssigned : List String := [" + ", ".join(_s(a) for a in commit_uncond) + "]")
+    L.append("/-- `Commit.__slots__` -/")
+    L.append("def commitSlotAttrs : List String := [" + ", ".join(_s(a) for a in commit_slots) + "]")
     L.append("/-- every public setter of the four classes: (class, name, kind); kind 0 = assigns the attribute only,\n"
              "    1 = also sets `_needs_serialization = True`, 2 = goes through `set_raw_string`,\n"
              "    3 = also drops the cached id (`_sha = None`) -/")
@@ -2032,6 +2098,206 @@ def gen_sequence(rng, kind):
     return {"init": f, "init_repr": {k: repr(v) for k, v in f.items()}, "ops": ops, "discipline": discipline}
 
 
+# ------------------------------------------------------------------------------------------------
+# one live object re-filled from new bytes
+
+def _refill_pool(rng, kind):
+    """Texts of one type covering all subsets of the optional parts: list of (fields | None, text)."""
+    import itertools
+    pool = []
+    if kind == "tag":
+        for tagger, negz, msg, sig in itertools.product([True, False], [False, True], ["text", "empty", "missing"], [None, "PGP", "SSH"]):
+            if (negz and not tagger) or (sig and msg == "missing"):
+                continue
+            f = gen_tag_fields(rng, "git")
+            f["signature"] = None
+            f["object_sha"] = rng.randbytes(20).hex().encode()
+            if tagger:
+                f["tag_timezone"], f["tag_neg"] = (0, True) if negz else (rng.choice([3600, -16200, 0]), False)
+            else:
+                f["tagger"], f["tag_time"], f["tag_timezone"], f["tag_neg"] = None, None, None, False
+            f["message"] = {"text": b"release notes\n", "empty": b"", "missing": None}[msg]
+            if sig:
+                f["signature"] = gen_pgp(rng, sig) + b"\n"
+            text = ref_tag(f) if msg != "missing" else ref_tag(f)[:-1]
+            pool.append((f, text))
+    elif kind == "commit":
+        for np, enc, mt, ex, sig, msg, negz in itertools.product([0, 1, 2], [False, True], [False, True], [False, True],
+                                                                  [False, True], ["text", "empty", "missing"], [False, True]):
+            if rng.random() < 0.6:
+                continue                     # a random third of the 288 combinations per run
+            f = gen_commit_fields(rng, "git")
+            f["tree"] = rng.randbytes(20).hex().encode()
+            f["parents"] = [rng.randbytes(20).hex().encode() for _ in range(np)]
+            f["encoding"] = rng.choice([b"ISO-8859-1", b"latin1"]) if enc else None
+            f["mergetag"] = [ref_tag(gen_tag_fields(rng, "git"))] if mt else []
+            f["mergetag"] = [m if m.endswith(b"\n") else m + b"\n" for m in f["mergetag"]]
+            f["extra"] = [(b"HG:extra", b"a\nb"), (b"x-foo", b"1")] if ex else []
+            f["gpgsig"] = gen_pgp(rng, "PGP") if sig else None
+            f["message"] = {"text": b"subject\n\nbody\n", "empty": b"", "missing": None}[msg]
+            if negz:
+                f["author_timezone"], f["author_neg"], f["commit_timezone"], f["commit_neg"] = 0, True, 0, True
+            else:
+                f["author_neg"] = f["commit_neg"] = False
+                f["author_timezone"], f["commit_timezone"] = rng.choice([3600, 19800]), rng.choice([0, -25200])
+            text = ref_commit(f) if msg != "missing" else ref_commit(f)[:-1]
+            pool.append((f, text))
+    elif kind == "tree":
+        for n in (0, 1, 2, 5, 9):
+            for _ in range(3):
+                es = gen_tree_entries(rng, "sha1", n=n, git_clean=True)
+                pool.append((es, ref_tree(es)))
+    else:
+        for n in (0, 1, 7, 300):
+            for _ in range(3):
+                d = rng.randbytes(n)
+                pool.append((d, d))
+    return pool
+
+
+REFILL_HOWS = ["string", "chunks", "verify", "sha"]
+
+
+def _obj_view(kind, o):
+    """every value a caller can read from the object, incl. the private timezone-flag attributes"""
+    if kind == "commit":
+        v = commit_fields_of(o)
+        v["getters"] = [repr(_try(getattr, o, a)) for a in TOUCH["commit"] if a != "mergetag"]
+        return v
+    if kind == "tag":
+        v = tag_fields_of(o)
+        v["getters"] = [repr(_try(getattr, o, a)) for a in TOUCH["tag"]]
+        return v
+    if kind == "tree":
+        return {"entries": sorted(o._entries.items()), "items": [tuple(e) for e in o.items()], "len": len(o)}
+    return {"data": o.data, "chunked": b"".join(o.chunked)}
+
+
+def _refill_case(ctx, kind, t1: bytes, t2: bytes, f2, how, pre_edit, discipline, stream="refill"):
+    """ONE live object parsed from t1 (getters read, maybe a field edited, ids asked), re-filled on the same instance
+    from t2; the oracle is a FRESH object parsed from t2."""
+    import dulwich.objects as O
+    cls = {"commit": O.Commit, "tag": O.Tag, "tree": O.Tree, "blob": O.Blob}[kind]
+    case = {"kind": kind, "t1": hx(t1), "t2": hx(t2), "how": how, "pre_edit": pre_edit, "discipline": discipline,
+            "replay": {"op": "refill", "kind": kind, "t1": hx(t1), "t2": hx(t2), "how": how, "pre_edit": pre_edit,
+                       "discipline": discipline}}
+    edit_attr = {"commit": "author", "tag": "name"}.get(kind)
+    try:
+        o = cls.from_string(t1)
+        _obj_view(kind, o)                                   # getters read
+        if pre_edit and kind == "commit":
+            o.encoding = b"x-pre-edit"
+            o.gpgsig = b"-----BEGIN PGP SIGNATURE-----\npre\n-----END PGP SIGNATURE-----"
+        elif pre_edit and kind == "tag":
+            o.tagger, o.tag_time, o.tag_timezone = b"Pre Edit <p@e>", 7, 3600
+            o.signature = b"-----BEGIN PGP SIGNATURE-----\npre\n-----END PGP SIGNATURE-----\n"
+        elif pre_edit and kind == "tree":
+            o.add(b"pre-edit", 0o100644, b"1" * 40)
+        elif pre_edit:
+            o.chunked = [b"pre", b"edit"]
+        before, after = _queries(discipline, 0)
+        for q in before + after:
+            _ask(o, q)
+        o = _raw_replace(kind, o, t2, how)                    # same instance for every how in REFILL_HOWS
+        asked = [_ask(o, q) + (q,) for q in after]
+        fresh = cls.from_string(t2)
+        got, want = _obj_view(kind, o), _obj_view(kind, fresh)
+        if got != want:
+            diff = [k for k in want if got.get(k) != want[k]]
+            ctx.oracle_fail(stream, case, f"after re-filling from new bytes the object differs from a fresh object parsed from the "
+                                          f"same bytes in {diff}: {[(got.get(k), want[k]) for k in diff][:2]!r}"[:600], None)
+            return None
+        raw = o.as_raw_string()
+        if raw != t2:
+            ctx.oracle_fail(stream, case, f"as_raw_string() after the re-fill is not the new text: {raw[-80:]!r}", None)
+            return None
+        bad = [(q, g) for a, g, q in asked if g != sha_hex(a, kind, t2)] + \
+              [(q, g) for q in after for a, g in [_ask(o, q)] if g != sha_hex(a, kind, t2)]
+        if bad:
+            ctx.oracle_fail(stream, case, f"id after the re-fill ({bad[0][0]} request) is {bad[0][1]!r}, not the hash of the new text", None)
+            return None
+        view = got
+        # one field edit: only that field may differ from the new text
+        if edit_attr:
+            newv = b"Edited <e@d>" if kind == "commit" else b"edited-name"
+            setattr(o, edit_attr, newv)
+            setattr(fresh, edit_attr, newv)
+            r1, r2 = o.as_raw_string(), fresh.as_raw_string()
+            if r1 != r2:
+                ctx.oracle_fail(stream, case, f"after editing {edit_attr} the re-filled object serialises differently from a fresh one: "
+                                              f"{r1[:200]!r} vs {r2[:200]!r}", None)
+                return None
+            if f2 is not None and f2.get("message") is not None:
+                g2 = dict(f2)
+                g2[edit_attr] = newv
+                want_raw = (ref_commit if kind == "commit" else ref_tag)(g2)
+                if r1 != want_raw:
+                    ctx.oracle_fail(stream, case, f"after editing {edit_attr} more than that field differs from the new text: "
+                                                  f"{r1[:200]!r} vs {want_raw[:200]!r}", None)
+                    return None
+            if o.id != sha_hex("sha1", kind, r1):
+                ctx.oracle_fail(stream, case, "id after the edit is not the hash of the bytes", None)
+                return None
+        return view
+    except Exception as e:  # noqa: BLE001
+        ctx.oracle_fail(stream, case, f"real code raised on well-formed texts: {type(e).__name__}: {e}", None)
+        return None
+
+
+def _stream_refill(ctx):
+    rng = ctx.rng
+    git_samples = {}
+    for kind in ("tag", "commit", "tree", "blob"):
+        pool = _refill_pool(rng, kind)
+        n = ctx.budget(400 if kind in ("tag", "commit") else 80) * BOOST
+        pairs = []
+        if kind == "tag":                     # small pool: every ordered pair, systematically
+            pairs = [(a, b) for a in pool for b in pool if a is not b]
+            rng.shuffle(pairs)
+            pairs = pairs[: max(n, 300)]
+        else:
+            for _ in range(n):
+                pairs.append((rng.choice(pool), rng.choice(pool)))
+        lines, meta = [], []
+        for (f1, t1), (f2, t2) in pairs:
+            how, pre_edit, disc = rng.choice(REFILL_HOWS), rng.random() < 0.4, rng.choice(DISCIPLINES)
+            opt = lambda f: (("T" if f.get("tagger") else "-") + ("Z" if f.get("tag_neg") else "-") + ("S" if f.get("signature") else "-") +   # noqa: E731
+                             ("m" if f.get("message") is None else "M")) if kind == "tag" else \
+                (f"p{len(f['parents'])}" + "".join(c if f[k] else "-" for c, k in (("E", "encoding"), ("G", "mergetag"), ("X", "extra"), ("S", "gpgsig")))
+                 + ("Z" if f["author_neg"] else "-") + ("m" if f["message"] is None else "M")) if kind == "commit" else "-"
+            ctx.count("refill", (kind, t1, t2, how, pre_edit, disc), True,
+                      f"{kind}:{opt(f1)}->{opt(f2)}" if kind == "tag" else f"{kind}:{how}")
+            view = _refill_case(ctx, kind, t1, t2, f2 if isinstance(f2, dict) else None, how, pre_edit, disc)
+            if view is not None and kind in ("tag", "commit") and not pre_edit:
+                lines.append(f"c01.tag.refill {hx(t1)} {hx(t2)}" if kind == "tag" else f"c01.commit.deser {hx(t2)}")
+                view = {k: v for k, v in view.items() if k != "getters"}
+                meta.append((t1, t2, "ok " + (tag_tokens(view) if kind == "tag" else commit_tokens(view))))
+            if view is not None and len(git_samples.setdefault(kind, [])) < 12:
+                git_samples[kind].append(t2)
+        for (t1, t2, real), m in zip(meta, ctx.driver.batch(lines)):
+            _cmp(ctx, "refill.model", {"kind": kind, "t1": hx(t1), "t2": hx(t2)}, m, real)
+    # C git names the new texts like the re-filled objects do (their ids were compared with hashlib above)
+    repo = ctx.scratch / "git-refill"
+    out, err = _git(ctx, ctx.scratch, ["init", "-q", str(repo)])
+    if out is None:
+        raise core.InfraError(f"git init failed: {err}")
+    for kind, texts in git_samples.items():
+        d = ctx.scratch / f"refill-{kind}"
+        d.mkdir(exist_ok=True)
+        files = []
+        for i, t in enumerate(texts):
+            (d / str(i)).write_bytes(t)
+            files.append(str(d / str(i)))
+        out, err = _git(ctx, repo, ["hash-object", "-t", kind, "--stdin-paths"], ("\n".join(files) + "\n").encode())
+        ids = out.decode().split() if out is not None else None
+        for t, gi in zip(texts, ids or []):
+            ctx.count("refill.git", (kind, t), True, kind)
+            if gi != sha_hex("sha1", kind, t).decode():
+                ctx.oracle_fail("refill.git", {"kind": kind, "text": hx(t)}, f"git hash-object names the text {gi}", None)
+        if ids is None:
+            ctx.oracle_fail("refill.git", {"kind": kind}, f"git rejects a pool text: {err[:200]}", None)
+
+
 def _stream_verify(ctx):
     """The paths of the public API that take an expected id (`verify_sha=` on set_raw_string / set_raw_chunks /
     from_raw_string, checked; `sha=`, trusted, checked later by check()): the right id is accepted and is the id
@@ -2452,6 +2718,8 @@ def _replay_case(ctx, c: dict, stream: str, V=None) -> bool:
         if "extra" in f:
             f["extra"] = [tuple(x) for x in f["extra"]]
         _fields_oracle(ctx, c["kind"], f, stream)
+    elif op == "refill":
+        _refill_case(ctx, c["kind"], unhx(c["t1"]), unhx(c["t2"]), None, c["how"], c["pre_edit"], c["discipline"], stream)
     elif op == "msg":
         _oracle_msg(ctx, [(unhx(k), unhx(v)) for k, v in c["headers"]], None if c["body"] == "~" else unhx(c["body"]), stream)
     elif op == "tz":
@@ -2544,6 +2812,7 @@ def run(ctx: core.Ctx):
         _stream_objects(ctx, "commit")
         _stream_blob(ctx)
         _stream_edits(ctx)
+        _stream_refill(ctx)
         _stream_verify(ctx)
         _stream_git(ctx)
     finally:
@@ -2557,6 +2826,9 @@ def search(ctx: core.Ctx):
     BOOST = 4
     V = Variants(ctx)
     try:
+        _stream_refill(ctx)
+        if ctx.oracle_failures:
+            return
         _stream_edits(ctx)
         _stream_verify(ctx)
         if ctx.oracle_failures:
